@@ -25,6 +25,7 @@ import (
 func init() { fw.Register("C18", "exploration", Run) }
 
 type dirSpec struct {
+	extra bool // thorough tier only: a directory of /repo/tests taken as it is (reduced flag product)
 	name  string
 	path  string
 	focus string // a workload present in the directory ("" = none known)
@@ -316,6 +317,21 @@ func Run(r *fw.Run) {
 		repo = "/repo"
 	}
 	dirs = buildDirs(filepath.Join(fw.Scratch, "c18-dirs"), repo)
+	if !r.Quick() {
+		// every directory of the repository's own test inputs, as it is
+		have := map[string]bool{}
+		for _, d := range dirs {
+			have[d.path] = true
+		}
+		if ents, err := os.ReadDir(filepath.Join(repo, "tests")); err == nil {
+			for _, e := range ents {
+				p := filepath.Join(repo, "tests", e.Name())
+				if e.IsDir() && !have[p] {
+					dirs = append(dirs, dirSpec{extra: true, name: "tests/" + e.Name(), path: p, admin: strings.Contains(e.Name(), "anp") || strings.Contains(e.Name(), "admin")})
+				}
+			}
+		}
+	}
 	r.Bounds["directories"] = len(dirs)
 	q := r.Quick()
 	fw.Explore(r, "list-flags", fw.Full, func(c *fw.Ctx) Case {
@@ -329,6 +345,9 @@ func Run(r *fw.Run) {
 		if (focus == "present" || strings.HasPrefix(focus, "near-miss")) && dirs[d].focus == "" {
 			c.Skip()
 		}
+		if dirs[d].extra && (focus != "" || verb != "" || fail) {
+			c.Skip()
+		}
 		return Case{Cmd: "list", D1: d, Format: f, Exposure: exp, Focus: focus, Fail: fail, Verb: verb, ToFile: toFile,
 			Desc: fmt.Sprintf("list dir=%s -o %s exposure=%v focus=%s fail=%v %s file=%v", dirs[d].name, f, exp, focus, fail, verb, toFile)}
 	}, eval)
@@ -339,6 +358,11 @@ func Run(r *fw.Run) {
 		fail := c.Choose(2, "--fail") == 1
 		verb := fw.Pick(c, []string{"", "-q", "-v"}, "verbosity")
 		toFile := c.Choose(2, "-f") == 1
+		if dirs[d1].extra || dirs[d2].extra {
+			if d1 != d2 || verb != "" || fail {
+				c.Skip() // the extra directories are diffed with themselves only
+			}
+		}
 		large := func(n string) bool {
 			return strings.HasPrefix(n, "tests/onlineboutique") || strings.HasPrefix(n, "tests/acs") || n == "many-resources"
 		}
